@@ -1023,16 +1023,39 @@ def wide_stride_avgpool(o):
                for kind, ins, outs, faf, pad, stride in o.get("src_graph") or [])
 
 
-def classify_failure(o, ans):
+def classify_failure(o, ans, is_open=None):
     """stable key of an open known finding (see known_findings.txt), or None. Only the structure of the source network
-    is consulted; the verdict itself is Lean's."""
+    is consulted; the verdict itself is Lean's. `is_open(key)`: the key is still recorded as open - a construct whose
+    defect has been repaired must not claim a failure that belongs to another, open, key (quick seed 2, network 1946:
+    PRELU -> SQUEEZE plus a wide-stride average pool)."""
+    k = _classify_failure(o, ans, set(), is_open)
+    return k
+
+
+def _classify_failure(o, ans, skip, is_open):
+    first = None
+    for _ in range(8):
+        k = _classify_failure_once(o, ans, skip)
+        if k is None:
+            return first
+        if is_open is None or is_open(k):
+            return k
+        if k in skip:                 # a key whose branch does not look at `skip`: nothing further to try
+            return first or k
+        first = first or k
+        skip.add(k)
+    return first
+
+
+def _classify_failure_once(o, ans, skip):
     g = o.get("src_graph") or []
     if "weights_do_not_fit_the_IFM_depth" in ans:
         # AVERAGE_POOL_2D with a width stride >= 4 lowered to a convolution with one input channel
         shapes, strides = o.get("src_shapes") or [], o.get("src_strides") or []
         for n_op, (kind, ins, outs, faf, pad, stride) in enumerate(g):
             if kind == "AVERAGE_POOL_2D" and n_op < len(strides) and strides[n_op][1] >= 4 and ins[0] < len(shapes) and shapes[ins[0]][-1] > 1:
-                return "avgpool-wide-stride-as-conv:weights-have-one-input-channel"
+                if "avgpool-wide-stride-as-conv:weights-have-one-input-channel" not in skip:
+                    return "avgpool-wide-stride-as-conv:weights-have-one-input-channel"
     if ans.endswith("verdict=fail"):
         # Maximum(x, Mul(x, c)) with a constant scalar c taken for LeakyRelu / Relu / Abs on its quantised value
         quant, scalars = o.get("src_quant") or [], o.get("src_scalars") or {}
@@ -1082,7 +1105,8 @@ def classify_failure(o, ans):
                     return "int16-lrelu-mul-max-rounds-each-branch"
     # (keys of the second C01 worker; the wide-stride average pool and the dilation-above-two zero fill are the same defects as
     # the two keys above, reached when the more specific conditions above do not hold)
-    if (ans.endswith("verdict=fail") or ans.startswith("err:out:")) and wide_stride_avgpool(o):
+    if (ans.endswith("verdict=fail") or ans.startswith("err:out:")) and wide_stride_avgpool(o) \
+            and "wide-stride-avgpool-converted-with-one-input-channel-kernel" not in skip:
         return "wide-stride-avgpool-converted-with-one-input-channel-kernel"
     if ans.endswith("verdict=fail") and mean_over_unit_axes(o):
         return "mean-over-unit-axes-drops-requantisation"
@@ -1199,7 +1223,7 @@ def main():
             ck.count("not_simulated:" + ans[5:])
             continue
         if not ans.startswith("ok "):
-            key = classify_failure(o, ans)
+            key = classify_failure(o, ans, lambda k_: ck.finding_key_known(k_) is not None)
             ck.violation(f"execution of the {'output' if ':out:' in ans else 'source'} model failed in Lean: {ans[:300]} "
                          f"(network {o['idx']} {o['profile']} {o['src_ops']} {o['opts']})", rp, found_input=key is not None, key=key)
             continue
@@ -1227,7 +1251,7 @@ def main():
             nontrivial.add((o["profile"], o["idx"], tuple(o["opts"])))
         if ans.endswith("verdict=fail"):
             ck.violation(f"compiled model differs from the source model: {ans[:400]} "
-                         f"(network {o['idx']} {o['profile']} {o['src_ops']} {o['opts']})", rp, key=classify_failure(o, ans))
+                         f"(network {o['idx']} {o['profile']} {o['src_ops']} {o['opts']})", rp, key=classify_failure(o, ans, lambda k_: ck.finding_key_known(k_) is not None))
         m = re.search(r"exptab seen=(\d+) bad=(\d+) first=(\S+)", ans)
         if m:
             ck.count("softmax_exp_tables_compared", int(m.group(1)))
